@@ -51,13 +51,17 @@ theorem C18_join_notify_failed (s : Srv) (k : Nat) (u : Str) (id : Nat) (raw : S
 
 /-- **LEAVE / kick**: the events of an admitted leave -/
 theorem C18_leave_events (s : Srv) (k : Nat) (u : Str) (id : Nat) (raw : Str) (ob : Option Str) (env : Env)
-    (c : Chan) (m : Str) (hc : leaveCheck s u id raw ob = .ok (c, m)) (hev : notifyFails s env = false) :
+    (c : Chan) (m : Str) (hc : leaveCheck s u id raw ob = .ok (c, m)) (hev : handoverFails s env = false) :
     (doLeave s k u id raw ob env).2 =
       routeTo s c.members (some k) (.event .left (fullChan s c.handler) (fullNid s m) (c.owner = some m))
         ++ [{ conn := k, frame := .leaveAck id }] ++ (removeMember s c m env).2.1 := by
+  have hn : notifyFails s env = false := by
+    unfold handoverFails at hev
+    simp only [Bool.or_eq_false_iff] at hev
+    exact hev.1
   unfold doLeave
   rw [hc]
-  simp only [hev, Bool.false_eq_true, if_false]
+  simp only [hn, Bool.false_eq_true, if_false]
   unfold leaveTail
   have hok : (removeMember s c m env).2.2 = true := by
     unfold removeMember
@@ -72,7 +76,7 @@ theorem C18_leave_events (s : Srv) (k : Nat) (u : Str) (id : Nat) (raw : Str) (o
     member's connections get exactly the `MEMBER_JOINED owner=true` of the successor, who is a remaining member -/
 theorem C18_handover_events (s : Srv) (c : Chan) (u : Str) (env : Env)
     (hne : (withoutMember s.cfg.domain c u).members.isEmpty = false) (ho : c.owner = some u)
-    (hev : notifyFails s env = false) :
+    (hev : handoverFails s env = false) :
     (removeMember s c u env).2.1 =
       routeTo s (withoutMember s.cfg.domain c u).members none
         (.event .joined (fullChan s c.handler) (fullNid s (pickOwner env (withoutMember s.cfg.domain c u) u)) true) ∧
@@ -82,6 +86,19 @@ theorem C18_handover_events (s : Srv) (c : Chan) (u : Str) (env : Env)
     simp only [hne, Bool.false_eq_true, if_false, ho, if_true, hev, handoverEvents, withoutMember_handler]
   · apply pickOwner_mem
     intro h; simp [h] at hne
+
+/-- when the modulator refuses the hand-over announcement the new owner is recorded all the same (the channel is never left
+    without an owner) but nobody is told — the residue recorded as known finding for the disconnect clean-up -/
+theorem C18_handover_refused (s : Srv) (c : Chan) (u : Str) (env : Env)
+    (hne : (withoutMember s.cfg.domain c u).members.isEmpty = false) (ho : c.owner = some u)
+    (hev : handoverFails s env = true) :
+    (removeMember s c u env).2.1 = [] ∧ (removeMember s c u env).2.2 = false ∧
+    ∃ c', findChan (removeMember s c u env).1.chans c.handler = some c' ∧
+      c'.owner = some (pickOwner env (withoutMember s.cfg.domain c u) u) := by
+  unfold removeMember
+  simp only [hne, Bool.false_eq_true, if_false, ho, if_true, hev]
+  refine ⟨trivial, trivial, { withoutMember s.cfg.domain c u with owner := some (pickOwner env (withoutMember s.cfg.domain c u) u) }, ?_, rfl⟩
+  simp [findChan, putChan, withoutMember_handler]
 
 /-- no hand-over event when a non-owner leaves or the channel empties -/
 theorem C18_no_spurious_handover (s : Srv) (c : Chan) (u : Str) (env : Env)
